@@ -1,0 +1,360 @@
+//! Headless script driver for the interactive session (feature `verif-hooks`).
+//!
+//! Reads one operation per line from the file named by `EMU2A_VERIF_SCRIPT`, drives the real
+//! [`Tui`] with it (injected key events go through `handle_event`, drawing goes through
+//! [`Interface`] into an in-memory backend) and prints exactly one result line per operation.
+use crossterm::event::{Event, KeyCode, KeyEvent, KeyModifiers};
+use emulator_2a_lib::{
+    machine::{Machine, State, StepMode},
+    parser::{Programsize, Stacksize},
+};
+use tui::{backend::TestBackend, style::Color, Terminal};
+
+use std::panic::{catch_unwind, AssertUnwindSafe};
+
+use super::{
+    input::{self, Command, InputRegister},
+    interface::{Interface, MINIMUM_ALLOWED_HEIGHT, MINIMUM_ALLOWED_WIDTH},
+    Part, Tui,
+};
+use crate::args::InteractiveArgs;
+
+fn hex(bytes: &[u8]) -> String {
+    if bytes.is_empty() {
+        "-".into()
+    } else {
+        bytes.iter().map(|b| format!("{:02x}", b)).collect()
+    }
+}
+
+fn unhex(s: &str) -> Option<Vec<u8>> {
+    if s == "-" {
+        return Some(vec![]);
+    }
+    if s.len() % 2 != 0 || !s.is_ascii() {
+        return None;
+    }
+    (0..s.len() / 2)
+        .map(|i| u8::from_str_radix(&s[2 * i..2 * i + 2], 16).ok())
+        .collect()
+}
+
+fn unhex_str(s: &str) -> Option<String> {
+    String::from_utf8(unhex(s)?).ok()
+}
+
+fn b01(b: bool) -> &'static str {
+    if b {
+        "1"
+    } else {
+        "0"
+    }
+}
+
+fn fnv(bytes: &[u8]) -> u64 {
+    let mut h: u64 = 0xcbf29ce484222325;
+    for b in bytes {
+        h = (h ^ (*b as u64)).wrapping_mul(0x100000001b3);
+    }
+    h
+}
+
+/// Every field of the machine in a fixed order.
+fn dump_machine(m: &Machine) -> String {
+    let r = m.verif_state();
+    let regs: String = m
+        .registers()
+        .content()
+        .iter()
+        .map(|b| format!("{:02x}", b))
+        .collect();
+    let pr = match r.pending_register_write {
+        Some(n) => n.to_string(),
+        None => "-".into(),
+    };
+    let run = match m.state() {
+        State::Running => "R",
+        State::Stopped => "S",
+        State::ErrorStopped => "E",
+    };
+    let ss = match m.stacksize() {
+        Stacksize::_0 => "0",
+        Stacksize::_16 => "16",
+        Stacksize::_32 => "32",
+        Stacksize::_48 => "48",
+        Stacksize::_64 => "64",
+        Stacksize::NotSet => "N",
+    };
+    let ps = match m.programsize() {
+        Programsize::Size(n) => n.to_string(),
+        Programsize::Auto => "A".into(),
+        Programsize::NotSet => "N".into(),
+    };
+    let bus = m.bus();
+    let b = bus.verif_state();
+    let bd = bus.board();
+    let md = match m.step_mode() {
+        StepMode::Real => "R",
+        StepMode::Assembly => "A",
+    };
+    let dirs = bd.uio_dir();
+    format!(
+        "a={} ir={} r={} pr={} pf={} pi={} alu={:02x}{}{}{} lb={:02x} run={} w={} ss={} ps={} md={} out={:02x}{:02x} in={:02x}{:02x}{:02x}{:02x} micr={:02x} misr={:02x} ucr={:02x} usr={:02x} us={:02x} ur={:02x} t={},{},{},{} bd={:02x}{:02x}{:02x},{},{:02x}{:02x}{:02x},{},{},{},{},{},{}{}{} ram={}",
+        r.address, r.instruction, regs, pr, b01(r.pending_flag_write), b01(r.pending_edge_interrupt),
+        r.alu_output.0, b01(r.alu_output.1), b01(r.alu_output.2), b01(r.alu_output.3),
+        r.last_bus_read, run, b01(r.pending_wait_for_memory), ss, ps, md,
+        bus.output_fe(), bus.output_ff(),
+        b.input_reg[0], b.input_reg[1], b.input_reg[2], b.input_reg[3],
+        b.micr, b.misr, b.ucr, b.usr, b.uart_send, b.uart_recv,
+        b01(b.timer_enabled), b.timer_div[0], b.timer_div[1], b.timer_div[2],
+        *bd.digital_input1(), *bd.digital_output1(), *bd.digital_output2(),
+        bd.temp().to_bits(), bd.dasr().bits(), bd.daisr().bits(), bd.daicr().bits(),
+        bd.analog_inputs()[0].to_bits(), bd.analog_inputs()[1].to_bits(),
+        bd.analog_outputs()[0].to_bits(), bd.analog_outputs()[1].to_bits(), bd.fan_rpm(),
+        b01(dirs[0]), b01(dirs[1]), b01(dirs[2]),
+        fnv(&bus.memory()[..])
+    )
+}
+
+fn chars_hex(cs: &[char]) -> String {
+    hex(cs.iter().collect::<String>().as_bytes())
+}
+
+fn dump_tui(t: &Tui) -> String {
+    let (input, idx, hist, hidx, comps) = t.input_field.verif_state();
+    let hist_all = hist.join("\n");
+    let comps = match comps {
+        None => "-".to_string(),
+        Some((list, i)) => format!(
+            "{}:{}",
+            i,
+            list.iter().map(|c| chars_hex(c)).collect::<Vec<_>>().join(",")
+        ),
+    };
+    let note = match &t.notification_state.current {
+        None => "-".to_string(),
+        Some(text) => match text.strip_prefix("Invalid input:\n> ") {
+            Some(rest) => format!("invalid:{}", hex(rest.as_bytes())),
+            None if text.starts_with("Failed to load program:") => "loadfail".to_string(),
+            None => format!("other:{}", hex(text.as_bytes())),
+        },
+    };
+    format!(
+        "in={} idx={} hist={}:{}:{} hidx={} comps={} note={} part={} auto={} | {}",
+        chars_hex(&input),
+        idx,
+        hist.len(),
+        hist.last().map(|l| hex(l.as_bytes())).unwrap_or_else(|| "-".into()),
+        fnv(hist_all.as_bytes()),
+        hidx.map(|i| i.to_string()).unwrap_or_else(|| "-".into()),
+        comps,
+        note,
+        match t.machine.part {
+            Part::RegisterBlock => "R",
+            Part::Memory => "M",
+        },
+        b01(t.machine.auto_run_mode),
+        dump_machine(&t.machine.machine)
+    )
+}
+
+fn parse_key(code: &str, mods: &str) -> Option<KeyEvent> {
+    let code = match code {
+        "enter" => KeyCode::Enter,
+        "tab" => KeyCode::Tab,
+        "backtab" => KeyCode::BackTab,
+        "backspace" => KeyCode::Backspace,
+        "home" => KeyCode::Home,
+        "end" => KeyCode::End,
+        "left" => KeyCode::Left,
+        "right" => KeyCode::Right,
+        "up" => KeyCode::Up,
+        "down" => KeyCode::Down,
+        "delete" => KeyCode::Delete,
+        "insert" => KeyCode::Insert,
+        "esc" => KeyCode::Esc,
+        "pageup" => KeyCode::PageUp,
+        "pagedown" => KeyCode::PageDown,
+        "null" => KeyCode::Null,
+        c if c.starts_with('f') => KeyCode::F(c[1..].parse().ok()?),
+        c if c.starts_with('c') => KeyCode::Char(std::char::from_u32(u32::from_str_radix(&c[1..], 16).ok()?)?),
+        _ => return None,
+    };
+    let mut modifiers = KeyModifiers::empty();
+    for m in mods.chars() {
+        match m {
+            'c' => modifiers |= KeyModifiers::CONTROL,
+            's' => modifiers |= KeyModifiers::SHIFT,
+            'a' => modifiers |= KeyModifiers::ALT,
+            '-' => {}
+            _ => return None,
+        }
+    }
+    Some(KeyEvent { code, modifiers })
+}
+
+fn cmd_str(c: &Command) -> String {
+    match c {
+        Command::LoadProgram(p) => format!("load {}", hex(p.as_bytes())),
+        Command::SetInputReg(r, v) => format!(
+            "reg {} {}",
+            match r {
+                InputRegister::Fc => "FC",
+                InputRegister::Fd => "FD",
+                InputRegister::Fe => "FE",
+                InputRegister::Ff => "FF",
+            },
+            v
+        ),
+        Command::SetIrg(v) => format!("irg {}", v),
+        Command::SetTemp(v) => format!("temp {}", v.to_bits()),
+        Command::SetI1(v) => format!("i1 {}", v.to_bits()),
+        Command::SetI2(v) => format!("i2 {}", v.to_bits()),
+        Command::SetJ1(v) => format!("j1 {}", b01(*v)),
+        Command::SetJ2(v) => format!("j2 {}", b01(*v)),
+        Command::SetUio1(v) => format!("uio1 {}", b01(*v)),
+        Command::SetUio2(v) => format!("uio2 {}", b01(*v)),
+        Command::SetUio3(v) => format!("uio3 {}", b01(*v)),
+        Command::Show(Part::RegisterBlock) => "show R".into(),
+        Command::Show(Part::Memory) => "show M".into(),
+        Command::Next(n) => format!("next {}", n),
+        Command::Quit => "quit".into(),
+    }
+}
+
+/// Draw the whole interface at the given size; `Some(row description)` of the input line when the
+/// terminal is large enough, `None` for the "too small" screen.
+fn draw(t: &mut Tui, w: u16, h: u16) -> Option<String> {
+    let backend = TestBackend::new(w, h);
+    let mut terminal = Terminal::new(backend).expect("terminal");
+    terminal
+        .draw(|mut f| {
+            let area = f.size();
+            f.render_stateful_widget(Interface, area, t);
+        })
+        .expect("draw");
+    if w < MINIMUM_ALLOWED_WIDTH || h < MINIMUM_ALLOWED_HEIGHT {
+        return None;
+    }
+    // the input line: inside the main block, one row above its lower border
+    let buf = terminal.backend().buffer();
+    let y = h - 2;
+    let mut symbols = String::new();
+    let mut marks = String::new();
+    for x in 1..(w - 35 - 1) {
+        let cell = buf.get(x, y);
+        symbols.push_str(&cell.symbol);
+        marks.push(if cell.style.bg == Color::Yellow {
+            'b'
+        } else if cell.style.fg == Color::Yellow {
+            'y'
+        } else {
+            '.'
+        });
+    }
+    Some(format!("row={} st={}", hex(symbols.as_bytes()), marks))
+}
+
+fn new_tui() -> Tui {
+    let mut t = Tui::new(&InteractiveArgs::default()).expect("tui");
+    t.events.verif_headless = true;
+    t
+}
+
+fn apply(tui: &mut Option<Tui>, ws: &[&str]) -> String {
+    match ws {
+        ["tnew"] => {
+            *tui = Some(new_tui());
+            "ok".into()
+        }
+        ["tfile", name, content] => {
+            let name = match unhex_str(name) {
+                Some(n) => n,
+                None => return "bad-op".into(),
+            };
+            if *content == "!" {
+                let _ = std::fs::remove_file(&name);
+            } else {
+                match unhex(content) {
+                    Some(c) => std::fs::write(&name, c).expect("write"),
+                    None => return "bad-op".into(),
+                }
+            }
+            "ok".into()
+        }
+        ["cmd", line] => match unhex_str(line) {
+            Some(l) => match Command::parse(&l) {
+                Ok(c) => cmd_str(&c),
+                Err(_) => "invalid".into(),
+            },
+            None => "bad-op".into(),
+        },
+        _ => {
+            let t = match tui.as_mut() {
+                Some(t) => t,
+                None => return "dead".into(),
+            };
+            match ws {
+                ["key", code, mods] | ["key", code, mods, _] => {
+                    let ev = match parse_key(code, mods) {
+                        Some(e) => e,
+                        None => return "bad-op".into(),
+                    };
+                    let fc = match ws.get(3) {
+                        None => None,
+                        Some(f) => match f.strip_prefix("fc=") {
+                            Some("") => Some(vec![]),
+                            Some(l) => match l.split(',').map(unhex_str).collect::<Option<Vec<String>>>() {
+                                Some(v) => Some(v),
+                                None => return "bad-op".into(),
+                            },
+                            None => return "bad-op".into(),
+                        },
+                    };
+                    input::verif::set_completions(fc);
+                    t.events.verif_injected.push_back(Event::Key(ev));
+                    t.maintain();
+                    let q = t.handle_event();
+                    input::verif::set_completions(None);
+                    format!("q={}", b01(q))
+                }
+                ["tdump"] => dump_tui(t),
+                ["draw", w, h] | ["drawp", w, h] => {
+                    let (w, h) = match (w.parse::<u16>(), h.parse::<u16>()) {
+                        (Ok(w), Ok(h)) if w > 0 && h > 0 => (w, h),
+                        _ => return "bad-op".into(),
+                    };
+                    match draw(t, w, h) {
+                        Some(row) if ws[0] == "draw" => format!("ok {}", row),
+                        Some(_) => "ok".into(),
+                        None => "ok small".into(),
+                    }
+                }
+                _ => "bad-op".into(),
+            }
+        }
+    }
+}
+
+/// Run the script: one result line per input line. A panicking operation prints `panic` and
+/// discards the session (following operations print `dead` until the next `tnew`).
+pub fn run_script(path: &str) {
+    use std::io::Write;
+    let text = std::fs::read_to_string(path).expect("script");
+    let mut tui: Option<Tui> = None;
+    let stdout = std::io::stdout();
+    let mut out = std::io::BufWriter::new(stdout.lock());
+    for line in text.lines() {
+        let ws: Vec<&str> = line.split(' ').filter(|w| !w.is_empty()).collect();
+        let res = catch_unwind(AssertUnwindSafe(|| apply(&mut tui, &ws)));
+        let res = match res {
+            Ok(r) => r,
+            Err(_) => {
+                tui = None;
+                "panic".to_string()
+            }
+        };
+        writeln!(out, "{}", res).expect("stdout");
+    }
+    out.flush().expect("stdout");
+}
